@@ -128,6 +128,12 @@ class Gen:
 
     def value_type(self, depth=0, host=False):
         """a constructible type; host=True: host-shareable (no bool)"""
+        if self.o.get("agg_bias") and depth < 2 and self.o["matrices"] and self.o["floats"] and self.rng.chance(1, self.o["agg_bias"]):
+            # option agg_bias=k (C04, off by default): one type in k is a (mostly non-square) matrix or an array of a composite
+            if self.rng.chance(1, 2):
+                c = self.rng.range(2, 4)
+                return ["mat", c, self.rng.choice([r for r in (2, 3, 4) if r != c] + [c])]
+            return ["arr", self.rng.range(2, 4), self.value_type(depth + 1, host)]
         r = self.rng.below(10)
         if r < 4 or depth >= 2:
             return self.scalar(allow_bool=not host)
@@ -214,7 +220,7 @@ class Gen:
 
     def small_index(self, n):
         """index into a vector / the columns of a matrix: a literal, or (one time in three) a run-time value kept in range"""
-        if self.o["dyn_index"] and self.rng.chance(1, 3):
+        if self.o["dyn_index"] and self.rng.chance(1, self.o.get("dyn_index_den", 3)):
             return {"e": "bin", "op": "%", "a": self.index_expr_u32(), "b": lit("u32", n)}
         return lit("i32", self.rng.below(n))
 
